@@ -129,7 +129,16 @@ TraceProj == /\ Step("Proj") /\ Has(e, "keys") /\ Has(e, "vals")
 \* ---- several live objects; slices in the caller's hands ----------------------------
 TraceNew  == Step("New") /\ NewObj /\ Obs
 TraceSwap == Step("Swap") /\ Has(e, "h") /\ Swap(e.h) /\ Obs
-TracePutAllFrom == Step("PutAllFrom") /\ Has(e, "h") /\ IsMapT /\ PutAllFrom(e.h) /\ Obs
+\* Between two int-to-int maps put-all goes through the wire form (what object h
+\* wrote is read into the focus).  The property says what an EMPTY map reads back:
+\* an equal map.  Whether a map that already has entries keeps them under the
+\* pairs read (the code: every pair is put) or is replaced is not stated: both
+\* are accepted, nothing else is.
+TracePutAllFrom == /\ Step("PutAllFrom") /\ Has(e, "h") /\ IsMapT /\ e.h \in 0..Len(held)
+                   /\ \/ PutAllFrom(e.h)
+                      \/ /\ cfg.t = "IntIntMap" /\ e.h # 0 /\ m # EmptyFn
+                         /\ m' = held[e.h] /\ Same
+                   /\ Obs
 \* the complete enumeration and the size of a held object: what it was when the
 \* calls moved on to another object
 TraceHProj == /\ Step("HProj") /\ Has(e, "h") /\ Has(e, "keys") /\ Has(e, "vals") /\ Has(e, "hsize")
